@@ -31,7 +31,8 @@ ASSUMPTIONS = ["reference framing decides which byte ranges are frames; a frame 
                "documentation; generated payloads avoid 55 55 55 runs only where stated"]
 REQUIRED_OBS = ["unknown_type_delivered", "unknown_c0_sub_delivered", "unknown_ext_delivered",
                 "compared_with_reference", "malformed_reset_recovered", "long_stride_decoded",
-                "reframed_bodies", "equal_check_byte_pairs"]
+                "reframed_bodies", "equal_check_byte_pairs",
+                "streaks_of_rejecting_connections_recovered"]
 BUDGET = {"quick": 100, "thorough": 1500}
 
 REGISTERED = {4: {0x1F, 0x2A, 0x2B, 0x2C, 0x2D, 0x36, 0x37}, 5: {0x1F, 0xC0}}
@@ -67,6 +68,13 @@ def cases(tier, seed):
         yield {"k": "collide", "gen": gen, "seed": rnd.randrange(1 << 30),
                "n": 12 if tier == "quick" else 400}
     yield {"k": "stride", "seed": rnd.randrange(1 << 30), "n": 60 if tier == "quick" else 600}
+    # many connections in a row that each end in rejected input
+    for gen in (4, 5):
+        for n, kinds in ((7, ["crc"]), (12, ["flip"]), (25, ["crc", "flip", "noise"]),
+                         (9, ["noise"])) + (((120, ["flip", "crc"]),) if tier == "thorough"
+                                            else ()):
+            yield {"k": "streak", "gen": gen, "n": n, "kinds": kinds,
+                   "seed": rnd.randrange(1 << 30)}
     n = 150 if tier == "quick" else 60000
     for i in range(n):
         yield {"k": "stream", "gen": rnd.choice((4, 5)), "seed": rnd.randrange(1 << 30),
@@ -257,7 +265,94 @@ def _tail(gen, stream):
     return bool(rest) or err is not None
 
 
+def run_streak(case):
+    """Connection after connection ends in input the client must reject (a frame that fails its
+    check, a known frame with a body that cannot be decoded, noise) before anything was
+    decoded on it; the console then sends well-formed frames again: they are delivered."""
+    from ..sockworld import baseline_delivery
+    gen, n = case["gen"], case["n"]
+    rnd = random.Random(case["seed"])
+    viol, obs, out = [], {}, {}
+    cat = F.catalogue(gen)
+    names = sorted(cat)
+
+    def junk(i):
+        kind = case["kinds"][i % len(case["kinds"])]
+        raw = cat[names[rnd.randrange(len(names))]]
+        if kind == "crc":
+            b = bytearray(raw)
+            b[-1] ^= 0x5A
+            return bytes(b)
+        if kind == "flip":
+            b = bytearray(raw)
+            s0, e0 = F.covered_span(gen, raw)
+            b[rnd.randrange(s0, e0 - 2)] ^= 1 << rnd.randrange(8)
+            return bytes(b)
+        return _noise(rnd, rnd.randint(30, 90))
+
+    want_probe = baseline_delivery(gen, F.probe_frame(gen, 77))
+
+    async def main(loop, net, log):
+        w = SockWorld(gen, loop, net, log)
+        await w.open()
+        await quiesce(loop)
+        seen = set()
+        for i in range(n):
+            c = net.current()
+            tries = 0
+            while c is None and tries < 5:
+                await asyncio.sleep(2.5)
+                await quiesce(loop)
+                c = net.current()
+                tries += 1
+            if c is None:
+                out["stuck_at"] = i
+                return
+            seen.add(c.id)
+            c.transport.peer_data(junk(i))
+            await quiesce(loop)
+            if c.open:
+                # (not rejected yet - noise without a frame in it: the console hangs up)
+                c.transport.peer_reset()
+                await quiesce(loop)
+            await asyncio.sleep(2.5)
+            await quiesce(loop)
+        out["connections"] = len(seen)
+        c = net.current()
+        out["connected"] = c is not None
+        out["is_open"] = w.sock.is_open
+        if c is not None:
+            n0 = len(w.msgs)
+            probe = F.probe_frame(gen, 77)
+            c.transport.peer_data(probe)
+            await quiesce(loop)
+            out["got"] = [describe(h, m) for _, h, m in w.msgs[n0:]]
+            out["want"] = [want_probe]
+        await w.close()
+
+    _, log, st = H.run(main)
+    info = {"gen": gen, "connections_ending_in_rejected_input": n, "kinds": case["kinds"]}
+    if st != "ok":
+        viol.append({"mechanism": "client-wedged-after-malformed-input",
+                     "detail": dict(info, status=st)})
+    elif "stuck_at" in out or not out.get("connected") or not out.get("is_open"):
+        viol.append({"mechanism": "client-gives-up-after-repeated-malformed-input",
+                     "detail": dict(info, **{k: v for k, v in out.items()})})
+    elif out["got"] != out["want"]:
+        viol.append({"mechanism": "well-formed-frame-not-delivered-after-malformed-streak",
+                     "detail": dict(info, got=out["got"][:2])})
+    else:
+        obs["streaks_of_rejecting_connections_recovered"] = 1
+    for v in viol:
+        v["log"] = H.log_slice(log, 30)
+    ok = 0 if viol else 1
+    return {"violations": viol, "evals": n, "decided": ok, "distinct": ok, "obs": obs,
+            "sample": info}
+
+
 def run_case(case):
+    if case["k"] == "streak":
+        return run_streak(case)
     k = case["k"]
     viol, obs = [], {}
     n = 0
